@@ -219,6 +219,14 @@ impl<'t> DocGen<'t> {
                 }
             }
         }
+        if self.wrong() {
+            // a type declaration that reuses the name of an earlier function export (or vice versa)
+            if self.t.chance(1, 2) {
+                body.push_str("    dup: func();\n    record dup { a: u8 }\n");
+            } else {
+                body.push_str("    enum dup2 { a, b }\n    dup2: func();\n");
+            }
+        }
         self.out.push_str(&format!("interface {n} {{\n{body}}}\n"));
         self.interfaces.push(n);
     }
@@ -301,6 +309,13 @@ impl<'t> DocGen<'t> {
                 body.push_str(&format!("    include {path} with {{ {} }};\n", with.join(", ")));
             }
         }
+        if self.wrong() {
+            match self.t.draw(3) {
+                0 => body.push_str("    import dup: func();\n    record dup { a: u8 }\n"),
+                1 => body.push_str("    import dup: func();\n    resource dup { constructor(); }\n"),
+                _ => body.push_str("    export dup: func();\n    export dup: func();\n"),
+            }
+        }
         self.out.push_str(&format!("world {n} {{\n{body}}}\n"));
         self.worlds.push(n);
     }
@@ -342,12 +357,18 @@ impl<'t> DocGen<'t> {
                     "foo:shared/kv@1.0.0",
                     "bar:util/clock",
                 ]);
-                let ty = match self.t.draw(4) {
-                    0 => "func()".to_string(),
-                    1 => "foo:shared/log@1.1.0".to_string(),
-                    2 => "foo:shared/types@1.0.0".to_string(),
-                    _ => "foo:shared/log@1.0.0".to_string(),
-                };
+                let ty = self
+                    .t
+                    .pick(&[
+                        "func()",
+                        "foo:shared/log@1.1.0",
+                        "foo:shared/types@1.0.0",
+                        "foo:shared/log@1.0.0",
+                        "foo:shared/kv@1.0.0",
+                        "foo:shared/nav@1.2.0",
+                        "foo:shared/log@1.2.0",
+                    ])
+                    .to_string();
                 self.out.push_str(&format!("import {n} as \"{name}\": {ty};\n"));
                 self.others.push(n);
             }
